@@ -92,7 +92,11 @@ func mStrList(m M, k string) []string {
 }
 func mMap(m M, k string) M {
 	if v, ok := m[k]; ok && v != nil {
-		return v.(map[string]interface{})
+		if mm, ok := v.(map[string]interface{}); ok {
+			return mm
+		}
+		// TLC prints an empty function as an empty tuple: [] stands for {}
+		return nil
 	}
 	return nil
 }
